@@ -412,7 +412,9 @@ def counts(ctx: Ctx, rule: str):
         # the array this method fills: its own IndexedBase (not the ones of inlined argument helpers)
         own = [c for c in ibs if c.args and (const_str(c.args[0]) in ("values", "missing_variables") or isinstance(c.args[0], ast.Name))]
         ibs = own or ibs
-        ctx.require(ibs, f"CodeGenerator.{mname}: IndexedBase not found")
+        if not ibs:
+            ctx.undecided(rule, f.key("count"), f"CodeGenerator.{mname}: the IndexedBase of the array it fills is not found in the method's normal form; its extent is not judged", f.where())
+            continue
         sh = call_kw(ibs[0], "shape")
         shr = util.canon_of(f).resolve(sh) if sh is not None else None
         if isinstance(shr, ast.Tuple) and len(shr.elts) == 1:
